@@ -12,7 +12,6 @@ import (
 
 	"github.com/fullstorydev/grpchan/simrt"
 	"google.golang.org/grpc/metadata"
-	"google.golang.org/protobuf/proto"
 )
 
 // Tape is the schedule choice source: in search mode values come from the
@@ -97,7 +96,7 @@ type rpcState struct {
 	peerOpt   *peerHolder
 	stream    any
 	ctxVals   []ctxVal
-	mutatedObj map[proto.Message]bool
+	mutatedObj map[any]bool
 	bpReported bool
 	outMD     metadata.MD
 	nestedIn  *rpcState
